@@ -32,7 +32,10 @@ import warnings  # noqa: E402
 import zipfile  # noqa: E402
 
 warnings.simplefilter("ignore")
-logging.disable(logging.CRITICAL)
+if os.environ.get("C13_WORKER_LOG"):
+    logging.basicConfig(level=logging.INFO, filename=os.environ["C13_WORKER_LOG"])
+else:
+    logging.disable(logging.CRITICAL)
 
 ABSENT = object()
 LOGSW_ID = 5001
@@ -183,6 +186,8 @@ class World:
         if isinstance(m, (self.S.FakeModule, self.S.FakeNumpyModule)):
             return "F"
         f = vars(m).get("__file__") if isinstance(m, types.ModuleType) else getattr(m, "__file__", None)
+        if f and isinstance(f, str) and not os.path.isabs(f) and name.startswith("c13rel_"):
+            return "R"
         if f and fake_root and isinstance(f, str) and f.startswith(fake_root) and not f.startswith(sys.prefix) \
                 and not f.startswith(getattr(sys, "base_prefix", sys.prefix)):
             return "J"
@@ -233,7 +238,20 @@ def stmt_lines(case, pyproject: bool):
     L.append("import sys, os, types")
     L.append("class _S(object):\n    pass")
     L.append("def _obj(n):\n    s = _S()\n    s.c13tag = n\n    return s")
-    L.append("_M = sys.modules['c13_world_mods']")
+    L.append("_M = sys.modules.get('c13_world_mods')")
+    if case.get("real_fops") is not None and not pyproject:
+        # this part only runs when the script is REALLY executed (egg-info fall-back, in the private copy)
+        R = ["if _M is None:", "    _here = os.path.dirname(os.path.abspath(__file__))"]
+        for f in case["real_fops"]:
+            pth = "os.path.join(_here, %r)" % f[1]
+            if f[0] in ("w", "a"):
+                R.append("    _fh = open(%s, %r)\n    _fh.write('c13stamp %d\\n')\n    _fh.close()" % (pth, f[0], f[2]))
+            elif f[0] == "x":
+                R.append("    try:\n        os.unlink(%s)\n    except OSError:\n        pass\n    _fh = open(%s, 'w')\n    _fh.write('c13stamp %d\\n')\n    _fh.close()" % (pth, pth, f[2]))
+            elif f[0] == "u":
+                R.append("    try:\n        os.unlink(%s)\n    except OSError:\n        pass" % pth)
+        R.append("    from setuptools import setup\n    setup(name=%r, version='1.0', packages=[], py_modules=[])\n    sys.exit(0)" % case["name"])
+        L.append("\n".join(R))
     if pyproject:
         L.append("_HERE = os.path.dirname(os.path.abspath(__file__))")
     else:
@@ -314,6 +332,12 @@ def script_text(case, pyproject: bool) -> str:
     body = []
     for name in case.get("imports", []):
         body.append("import %s" % name)
+    for name, rel, how in case.get("rel_loads", []) if not pyproject else []:
+        # a project module loaded by a RELATIVE file path, the two usual spellings
+        if how == "spec":
+            body.append("import importlib.util as _iu\n_sp = _iu.spec_from_file_location(%r, %r)\n_rm = _iu.module_from_spec(_sp)" % (name, rel))
+        else:
+            body.append("import imp as _imp\n_rm = _imp.load_source(%r, %r)" % (name, "./" + rel))
     for f in case.get("fops", []):
         body += fop_stmts(f)
     setup_call = "from setuptools import setup\nsetup(name=%r, version='1.0', install_requires=['c13dep'])" % case["name"]
@@ -385,6 +409,27 @@ def build_project(case, tmp):
     shutil.rmtree(d)
     fr = "/" + os.path.basename(arc)
     return arc, arc, fr, fr + "/" + inner_name
+
+
+def tree_digests(path):
+    """relative file name -> sha256 (the archive itself for an archive)."""
+    out = {}
+    if os.path.isfile(path):
+        with open(path, "rb") as fh:
+            out["<archive>"] = hashlib.sha256(fh.read()).hexdigest()
+        return out
+    for root_, dirs, fs in os.walk(path):
+        for f in fs:
+            full = os.path.join(root_, f)
+            rel = os.path.relpath(full, path)
+            if os.path.islink(full):
+                out[rel] = "L " + os.readlink(full)
+                continue
+            with open(full, "rb") as fh:
+                out[rel] = hashlib.sha256(fh.read()).hexdigest()
+        for d_ in dirs:
+            out[os.path.relpath(os.path.join(root_, d_), path) + "/"] = "D"
+    return out
 
 
 def tree_hash(path):
@@ -497,6 +542,7 @@ def run_case(w: World, case, tmp, emit):
     broad0 = broad_snapshot(w)
     listing0 = sorted(_REAL["listdir"](cwd0))
     hash0 = tree_hash(proj)
+    dig0 = tree_digests(proj)
     argv0 = list(sys.argv)
     contents0 = [("-" if (v is ABSENT or v is None) else content_stamp(v)) for v in raws0]
     init_line = state_tokens(w, canon0, "CWD0", path0, list(range(1, len(meta0) + 1)), mods0)
@@ -546,7 +592,10 @@ def run_case(w: World, case, tmp, emit):
         + " | " + " ".join(contents1)
     listing1 = sorted(os.listdir(cwd0)) if os.path.isdir(cwd0) else ["<gone>"]
     hash1 = tree_hash(proj)
+    dig1 = tree_digests(proj)
+    project_diff = sorted(k for k in set(dig0) | set(dig1) if dig0.get(k) != dig1.get(k))
     return {
+        "project_files": sorted(k for k in dig0 if not k.endswith("/")), "project_diff": project_diff,
         "id": case["id"], "init": init_line, "final": final_line, "outcome": outcome, "dt": round(_time.time() - _t0, 2),
         "root": root, "fake_root": fake_root,
         "untracked_mods": untracked_mods[:10], "untracked_attrs": untracked_attrs[:10],
